@@ -44,6 +44,9 @@ VALUES = [0, 1, 2, 1.0, 2.0, True, False, None, "a", "1", (1,), (1.0,), (1, 2), 
           # a call during which the wrapped function empties its own cache (a reload hook): the result of that very
           # call is stored afterwards, as functools does
           "clear!",
+          # a call during which the wrapped function calls the cache AGAIN with the very same arguments (a retry / a
+          # re-entrant lookup): the inner call finishes first and is the one that gets stored
+          "again!",
           # a float whose one-argument call key and a plain int argument have the SAME hash (f(1.5) and
           # f(hash((1.5,))): different calls that meet in one hash bucket)
           "HALF", "COLLIDE"]
@@ -84,7 +87,7 @@ def _val(v):
 
 
 # indexes into VALUES; the confusable values 1 / 1.0 / True / (1,) / (1.0,) are over-weighted
-ARG = st.one_of(st.sampled_from(range(len(VALUES))), st.sampled_from([1, 3, 5, 10, 11, 1, 16, 17, 19, 20, 21, 22, 23, 22, 23]))
+ARG = st.one_of(st.sampled_from(range(len(VALUES))), st.sampled_from([1, 3, 5, 10, 11, 1, 16, 17, 19, 20, 21, 23, 24, 23, 24, 22]))
 CALL = st.tuples(st.lists(ARG, max_size=2), st.lists(st.tuples(st.sampled_from(["a", "b", "self", "key"]), ARG), max_size=2,
                                                      unique_by=lambda t: t[0]))
 
@@ -107,7 +110,7 @@ def histories(draw, kind, tier):
         x, y = draw(st.sampled_from([(1, 3), (1, 5), (3, 5), (0, 6), (2, 4), (1, 19), (3, 20)]))  # indexes into VALUES
         pool += [([x, y], []), ([y, x], [])] if draw(st.booleans()) else [([], [("a", x), ("b", y)]), ([], [("a", y), ("b", x)])]
     if draw(st.integers(0, 4)) == 0:
-        pool += [([22], []), ([23], [])]  # f(0.5-ish) and f(the int its key hashes to): one hash bucket, two calls
+        pool += [([23], []), ([24], [])]  # f(0.5-ish) and f(the int its key hashes to): one hash bucket, two calls
     pick = st.one_of(st.sampled_from(pool), st.sampled_from(pool), st.sampled_from(pool), call)
     op = st.one_of(
         st.tuples(st.just("call"), st.integers(0, 1), pick),
@@ -289,12 +292,34 @@ def build_targets(case, extra=None):
 
         return _ret([afn, afn], [sfn, sfn], alog, slog, norm, 0)
     if kind == "function":
+        depth = {"a": 0, "s": 0}
+
+        def _again(args, kwargs):
+            # (bounded caches only: for the unbounded one functools itself is of two minds - its bounded wrapper
+            #  keeps the result of the call that finished FIRST, like the library, its unbounded one overwrites it)
+            return norm is not None and any(isinstance(x, str) and x == "again!"
+                                            for x in list(args) + list(kwargs.values()))
+
         @adeco
         async def afn(*args, **kwargs):
+            if _again(args, kwargs) and not depth["a"]:
+                depth["a"] += 1
+                try:
+                    await afn(*args, **kwargs)
+                    await afn(1)  # ... and looks up something else, too, before it gets to its own work
+                finally:
+                    depth["a"] -= 1
             return body(alog, args, kwargs)
 
         @sdeco
         def sfn(*args, **kwargs):
+            if _again(args, kwargs) and not depth["s"]:
+                depth["s"] += 1
+                try:
+                    sfn(*args, **kwargs)
+                    sfn(1)
+                finally:
+                    depth["s"] -= 1
             return body(slog, args, kwargs)
 
         return _ret([afn, afn], [sfn, sfn], alog, slog, norm, 0)
@@ -401,6 +426,7 @@ def check(case, drive=None):
     seen_keys = {}
 
     inst_ids = [0, 1]
+    mdepth = [0]
 
     def model_call(inst, args, kwargs):
         margs = ((("self", inst_ids[inst] if not case.get("eq_instances") else 0),) if case["kind"] == "method" else
@@ -411,6 +437,18 @@ def check(case, drive=None):
             return ("raise", "TypeError")
         if hit:
             return ("return", model.cache[key])
+        if case["kind"] == "function" and case.get("fn_form", "async") != "def-eager" and norm is not None \
+                and not mdepth[0] and any(
+                isinstance(x, str) and x == "again!" for x in list(args) + list(kwargs.values())):
+            mdepth[0] += 1
+            try:
+                nested = model_call(inst, args, kwargs)
+                if nested[0] != "raise":
+                    model_call(inst, (1,), {})
+            finally:
+                mdepth[0] -= 1
+            if nested[0] == "raise":
+                return nested  # (the inner call's failure leaves the outer call before its body runs)
         logged = ((f"inst{inst}",) + args) if case["kind"] == "method" else args
         mlog.append((logged, tuple(kwargs.items())))
         if any(isinstance(x, str) and x == "clear!" for x in list(args) + list(kwargs.values())):
